@@ -345,8 +345,9 @@ func (p c04) oracle(sc *Scenario, ex *c04exec, what string, attempts int, res *R
 	}
 	var all []attempt
 	for _, n := range targets {
-		for _, m := range mutators[n.V.Type()] {
-			all = append(all, attempt{n, m})
+		// one argument-shape variant of every mutator group per node
+		for _, grp := range mutatorGroups(n.V.Type()) {
+			all = append(all, attempt{n, grp[r.Intn(len(grp))]})
 		}
 	}
 	// tape-ordered: shuffle, truncate
